@@ -632,7 +632,8 @@ class CallbackPlugin(Plugin):
                 if agent.get_asset_volume(mid) != v:
                     mon.viol("C11", "callback_before_holdings_update", {"agent": agent.name, "market": mid,
                                                                          "got": agent.get_asset_volume(mid), "ledger": v})
-            if not close(float(agent.get_cash_amount()), float(led.cash[agent.agent_id]), REL, led.cash_abs[agent.agent_id]):
+            if math.isfinite(float(led.cash[agent.agent_id])) and math.isfinite(led.cash_abs[agent.agent_id]) and \
+                    not close(float(agent.get_cash_amount()), float(led.cash[agent.agent_id]), REL, led.cash_abs[agent.agent_id]):
                 mon.viol("C11", "callback_before_holdings_update", {"agent": agent.name, "cash": agent.get_cash_amount(),
                                                                      "ledger": led.cash[agent.agent_id]})
             if log.buy_agent_id == log.sell_agent_id:
